@@ -460,6 +460,19 @@ func check(p *prop, repo, tier string, seed int64) int {
 					[]string{"VERIF_SHARD=" + strconv.Itoa(i), "VERIF_TIER=" + tier, "VERIF_SEED=" + strconv.FormatInt(s, 10)}, timeout, sf, repo)
 				pr.seed = s
 				add(pr)
+				// A case that stalls virtual time (goroutines of the code under test waiting on each other's
+				// mutexes) ends the process before the search is over: inconclusive as it stands. The search is
+				// taken up again twice from derived seeds, so that a violation that can be shown is still shown;
+				// the stall stays reported next to it.
+				for attempt := 1; attempt <= 2 && checks > 0 && strings.Contains(pr.out, "VERIF-WATCHDOG") && !failRE.MatchString(pr.out); attempt++ {
+					s2 := s + int64(attempt)*7919
+					args2 := append(append([]string(nil), args[:len(args)-1]...), "-rapid.seed="+strconv.FormatInt(s2, 10))
+					sf2 := filepath.Join(statsDir, fmt.Sprintf("%s-%d-retry%d.json", r.Test, i, attempt))
+					pr = runProc(p, binPath(p, race, repo), fmt.Sprintf("%s[%d+retry%d]", r.Test, i, attempt), args2,
+						[]string{"VERIF_SHARD=" + strconv.Itoa(i), "VERIF_TIER=" + tier, "VERIF_SEED=" + strconv.FormatInt(s2, 10)}, timeout, sf2, repo)
+					pr.seed = s2
+					add(pr)
+				}
 			}(r, i, s, checks, race, timeout)
 		}
 	}
